@@ -83,6 +83,9 @@ class Module:
       self.tree = ast.parse(src, filename=relpath)
     except SyntaxError as e:
       raise AnalysisError(f'cannot parse {relpath}: {e}') from e
+    if os.environ.get('VERIF_NO_NORMALIZE') != '1':
+      from sa import normalize as _N
+      _N.normalize(self.tree)      # canonical shape of function bodies (sa/normalize.py)
     self.imports: Dict[str, str] = {}
     self.funcs: Dict[str, Func] = {}
     self.classes: Dict[str, Class] = {}
